@@ -184,7 +184,8 @@ def ensure(verbose=False):
 
 def env_for(root, nthreads=1):
     e = dict(os.environ)
-    e["PYTHONPATH"] = os.path.join(root, "tree") + os.pathsep + VERIF
+    # VT_TREE: a diagnostic copy of the overlay tree (tools/ccov.py) takes precedence
+    e["PYTHONPATH"] = os.environ.get("VT_TREE", os.path.join(root, "tree")) + os.pathsep + VERIF
     e["NUMBA_CACHE_DIR"] = os.path.join(root, "numba")
     e["PYTHONHASHSEED"] = "0"
     e["OMP_NUM_THREADS"] = str(nthreads)
